@@ -257,7 +257,35 @@ def no_shared_state(ctx, R, f, what, allow_self=False):
             ctx.check(not decos, R, f, c, "%s does not go through a memoised helper" % what,
                       "%s calls %s, which is memoised (%s): a result computed for an earlier call with the same key - but possibly another "
                       "sampling rate / default / configuration not in the key - is reused" % (what, getattr(t, "short", "?"), decos), robust=True)
+    # one hop: a package helper that keeps a hand-written memo in a module-level container
     from ..alpha import locals_of, params_of
+    seen_callees = set()
+    for c in astq.func_calls(f):
+        t = prog.resolve(f.module, c.func, f)
+        if not (hasattr(t, "body_nodes") and getattr(t, "cls", None) is None and getattr(t, "parent", None) is None) or t is f or id(t) in seen_callees:
+            continue
+        seen_callees.add(id(t))
+        if not str(getattr(t.module, "name", "")).startswith("pydrobert.speech"):
+            continue
+        tloc = locals_of(t.node) | params_of(t.node)
+        massigns = getattr(t.module, "assigns", {})
+        for n in t.body_nodes():
+            tgt = None
+            if isinstance(n, ast.Assign):
+                for tt in n.targets:
+                    if isinstance(tt, ast.Subscript) and isinstance(tt.value, ast.Name):
+                        tgt = tt.value.id
+            elif isinstance(n, ast.Call) and isinstance(n.func, ast.Attribute) and n.func.attr in ("setdefault", "update", "append", "add", "extend", "insert", "__setitem__") \
+                    and isinstance(n.func.value, ast.Name):
+                tgt = n.func.value.id
+            if tgt is not None and tgt not in tloc and tgt in massigns and any(isinstance(v_, (ast.Dict, ast.List, ast.Set)) or (
+                    isinstance(v_, ast.Call) and isinstance(v_.func, ast.Name) and v_.func.id in ("dict", "list", "set", "OrderedDict", "defaultdict", "WeakKeyDictionary", "WeakValueDictionary"))
+                    or (isinstance(v_, ast.Call) and isinstance(v_.func, ast.Attribute) and v_.func.attr in ("WeakKeyDictionary", "WeakValueDictionary", "OrderedDict", "defaultdict"))
+                    for v_ in massigns[tgt]):
+                ctx.bad(R, f, c, "%s calls %s, which stores into the module-level container `%s`: what it returns depends on what earlier calls (other instances, other "
+                        "configurations, an older version of the same file) left there, and the stored objects are shared between callers" % (what, t.short, tgt),
+                        "%s keeps no state between calls" % what, robust=True)
+                break
     loc = locals_of(f.node) | params_of(f.node)
     # functions defined inside f are its own objects (attributes set on them live as long as the call)
     loc |= {x.name for x in ast.walk(f.node) if isinstance(x, (ast.FunctionDef, ast.AsyncFunctionDef, ast.ClassDef)) and x is not f.node}
@@ -284,6 +312,25 @@ def no_shared_state(ctx, R, f, what, allow_self=False):
                 continue
             b = astq.base_name(t)
             if b is None:
+                continue
+            if b == selfn and allow_self and f.cls is not None and isinstance(t, ast.Subscript) or (
+                    b == selfn and allow_self and f.cls is not None and t is recv):
+                # self.X[...] = v / self.X.update(...) where X is a container created in the class body (never re-bound per instance):
+                # one object shared by every instance of the class
+                head = t
+                while isinstance(head, ast.Subscript):
+                    head = head.value
+                if isinstance(head, ast.Attribute) and isinstance(head.value, ast.Name) and head.value.id == selfn:
+                    attr = head.attr
+                    owner, cval = prog.find_class_attr(f.cls, attr)
+                    is_container = isinstance(cval, (ast.Dict, ast.List, ast.Set)) or (isinstance(cval, ast.Call) and isinstance(cval.func, ast.Name)
+                                                                                        and cval.func.id in ("dict", "list", "set", "OrderedDict", "defaultdict"))
+                    rebound = any(isinstance(n2, ast.Assign) and any(astq.is_self_attr(t2, m2.params[0], attr) for t2 in n2.targets)
+                                  for k2 in prog.mro(f.cls) for m2 in k2.methods.values() if m2.params for n2 in m2.body_nodes())
+                    if owner is not None and is_container and not rebound:
+                        ctx.bad(R, f, n, "%s stores into self.%s, a container created in the body of class %s and never re-bound per instance: it is one object "
+                                "shared by all instances, so what one computer put there (keyed by less than everything the value depends on) is served to another"
+                                % (what, attr, owner.name), "%s keeps no state between calls" % what, robust=True)
                 continue
             if b == selfn:
                 if not allow_self:
